@@ -422,6 +422,11 @@ func (r *Report) Finish() int {
 			fmt.Printf("NOTE: stale known finding property=%s rule=%s construct=%s\n", r.Prop, k.Rule, k.Construct)
 		}
 	}
+	if os.Getenv("VERIF_VERBOSE") != "" {
+		for _, o := range r.Obs {
+			fmt.Printf("OB %s %v %s @%s :: %s :: %s\n", o.Rule, o.OK, o.Construct, o.Pos, o.What, strings.Join(o.Facts, " ; "))
+		}
+	}
 	sort.Strings(knownHit)
 	seenKH := map[string]bool{}
 	for _, l := range knownHit {
